@@ -1,10 +1,12 @@
 #!/bin/bash
 # creates an isolated work area for building one engine: /work/<name>/verif (clone of /verif) and
-# /work/<name>/repo (detached git worktree of /repo HEAD)
+# /work/<name>/repo (detached git worktree of /repo HEAD); records the base commits for the merge
 set -e
 N=$1
 mkdir -p /work/$N
 git clone -q /verif /work/$N/verif
 git -C /repo worktree add -q --detach /work/$N/repo HEAD
 git -C /work/$N/verif config user.name builder; git -C /work/$N/verif config user.email builder@example.com
+git -C /verif rev-parse HEAD > /work/$N/VBASE
+git -C /repo rev-parse HEAD > /work/$N/RBASE
 echo "/work/$N ready"
